@@ -449,8 +449,15 @@ def collect_inputs_for_node(
     Returns:
         Dict mapping input names to their values
     """
+    from hypergraph.nodes.graph_node import GraphNode
+
     inputs = {}
     for param in node.inputs:
+        if isinstance(node, GraphNode) and get_value_source(param, node, graph, state, provided_values)[0] == ValueSource.DEFAULT:
+            # A nested graph resolves (and deep-copies) its own signature defaults:
+            # once per run, hence once per item when the node maps over its inputs.
+            # A copy made here would be shared by all items of the map.
+            continue
         inputs[param] = _resolve_input(param, node, graph, state, provided_values)
     return inputs
 
